@@ -48,6 +48,9 @@ def run(ctx):
         "how a source ends (io.EOF, io.ErrUnexpectedEOF, a foreign error, alone or together with the last "
         "bytes) and (0, nil) reads are fragmentation: every kind means 'no more bytes'; transient source "
         "errors in the middle of the data are outside the property",
+        "string / raw payloads above 256 bytes are logged by reference (<<-1, length, FNV-1a digest, first and "
+        "last 4 bytes>>, the same function of the bytes for written and returned values); TLC compares them "
+        "by reference and takes the length from the reference",
         "all decoders of one lifetime decode from the same byte array (srcmut: it must stay as it was)",
         "every call runs under a 20 s watchdog: a call that does not return is logged as pan = 2 (rejected) "
         "and the harness stops calling; a panic inside a constructor / Len / Bytes / Reset is a `panic` event",
@@ -63,7 +66,9 @@ def run(ctx):
              "bytes, everything, or irregular pieces; one BufferX lives through 1..3 such write / read-back "
              "cycles (emptied by Reset() or by draining to io.EOF; small capacities force data moves; some lifetimes write nothing or are given "
              "up after the writes; while a buffer is read back more items are written behind the unread ones), "
-             "plans run three to a buffer; every constructor; sources that end in 4 ways and return (0, nil); arbitrary / damaged bytes to every reader",
+             "plans run three to a buffer and carry payloads of 1025, 4095 and 8192 bytes; every fifth history has "
+             "payloads of k*2^j and k*2^j+-1 bytes (2^j in 256..65536, k <= 4) as strings, limited strings and raw "
+             "bytes, read through BufferX and up to five source modes; every constructor; sources that end in 4 ways and return (0, nil); arbitrary / damaged bytes to every reader",
         explanation="every typed read must return the written token and the remaining length the items "
                     "imply, a truncated or refused item must give no value from any reader, rewrite images "
                     "must differ exactly on the addressed bytes, every ReaderX must answer as BufferX, a value a "
